@@ -39,6 +39,7 @@ void vp_tags_init (void) {
 #define V_ALLFALSE   0x1000u  /* C06: MU_ALL_FALSE set without the spinlock, or left set by a writer's release */
 #define V_RD_BARGE   0x2000u  /* C14 L2 (reader) */
 #define V_LONG_L1    0x4000u  /* C14 L1 */
+#define V_ALLFALSE_W 0x10000u /* C06 */
 #define V_QUEUED     0x8000u  /* C03: acquisition by a queued waiter that has not observed its wake-up with acquire order */
 
 /* Decide which typed transition (old -> new) is for a thread with ghost *g,
@@ -118,6 +119,10 @@ unsigned vp_mu_step (uint32_t old, uint32_t new_, struct vp_mu_ghost *g, int ord
 	/* C06: MU_ALL_FALSE is set only by a step of the spinlock owner; a writer's release never leaves it set
 	   unless that writer owns the spinlock (it is then the scanning thread of unlock_slow) */
 	if ((old & MU_ALL_FALSE) == 0 && (new_ & MU_ALL_FALSE) != 0 && !had_spin) viol |= V_ALLFALSE;
+	/* C06: the critical section a writer is leaving may have made conditions true: its release clears MU_ALL_FALSE
+	   (unless it is the scanning thread, which owns the spinlock, or the release is nsync_mu_unlock_without_wakeup) */
+	if (rel_lock && old_hold == VP_WRITER && g->hold == VP_NONE && !had_spin && !acq_spin && !g->no_wakeup_ctx &&
+	    (new_ & MU_ALL_FALSE) != 0) viol |= V_ALLFALSE_W;
 	/* enqueue bookkeeping (C14 L1 is asserted by the harness of lock_slow from these) */
 	if (acq_spin && old_hold == VP_NONE && !acq_lock) {
 		/* C14 L1: a waiter that was woken LONG_WAIT_THRESHOLD times and lost sets MU_LONG_WAIT when it re-enqueues */
@@ -173,6 +178,7 @@ static void mu_check (unsigned viol) {
 	VP_ASSERT (!(viol & V_DESIG_H2), "C02: a woken waiter clears MU_DESIG_WAKER when it acquires or goes back to sleep");
 	VP_ASSERT (!(viol & V_DESIG_SET), "C02: MU_DESIG_WAKER is set only by a lock holder together with taking the spinlock");
 	VP_ASSERT (!(viol & V_ALLFALSE), "C06: MU_ALL_FALSE is set only under the queue spinlock");
+	VP_ASSERT (!(viol & V_ALLFALSE_W), "C06: a writer's release (nsync_mu_unlock) clears MU_ALL_FALSE, because its critical section may have made conditions true");
 	VP_ASSERT (!(viol & V_LONG_L1), "C14: a waiter woken LONG_WAIT_THRESHOLD times sets MU_LONG_WAIT when it goes back to sleep");
 	VP_ASSERT (!(viol & V_QUEUED), "C03: a queued waiter re-acquires only after observing its wake-up with an acquire load, or after dequeuing itself");
 	VP_ASSERT (!(viol & V_OBSERVER), "C16: an observer changes nothing but the spinlock bit");
